@@ -242,6 +242,7 @@ func Array[V any](arguments ...any) col.ArrayLike[V] {
 	// Initialize the possible arguments.
 	var notation = CDCN()
 	var size uint
+	var sized bool
 	var values []V
 	var sequence col.Sequential[V]
 	var source string
@@ -251,8 +252,10 @@ func Array[V any](arguments ...any) col.ArrayLike[V] {
 		switch actual := argument.(type) {
 		case int:
 			size = uint(actual)
+			sized = true
 		case uint:
 			size = actual
+			sized = true
 		case []V:
 			values = actual
 		case string:
@@ -280,9 +283,9 @@ func Array[V any](arguments ...any) col.ArrayLike[V] {
 	var class = col.Array[V](notation)
 	var array col.ArrayLike[V]
 	switch {
-	case size > 0:
+	case sized:
 		array = class.Make(size)
-	case len(values) > 0:
+	case values != nil:
 		array = class.MakeFromArray(values)
 	case sequence != nil:
 		array = class.MakeFromSequence(sequence)
